@@ -134,6 +134,36 @@ fn nb_fmt_pos() {
     }
     report("nb_fmt_pos", cases, fails, &format!("all strings<={} chars over {{LF,CR,TAB,a,中,é}} incl. empty x all positions incl. end of input", l));
 }
+/// many-line inputs: the elision branch (more than five lines), five-line spans that do not start on line 1, spans in
+/// the middle of long inputs.  Strings over {LF, a} are enough to reach every line-count branch of the formatter.
+fn strings2(alpha: &[&str], max: usize) -> Vec<String> {
+    let mut out = vec![String::new()];
+    let mut cur = vec![String::new()];
+    for _ in 0..max {
+        let mut next = Vec::new();
+        for s in &cur { for a in alpha.iter() { let mut t = s.clone(); t.push_str(a); next.push(t); } }
+        out.extend(next.iter().cloned());
+        cur = next;
+    }
+    out
+}
+#[test]
+fn nb_fmt_lines() {
+    let l = std::env::var("VERIF_NB_L2").ok().and_then(|x| x.parse().ok()).unwrap_or(10usize);
+    let mut cases = 0u64;
+    let mut fails: Vec<(String, String)> = Vec::new();
+    for s in strings2(&["\n", "a"], l) {
+        for a in 0..=s.len() { for b in a..=s.len() {
+            cases += 1;
+            if let Err(e) = check_span(&s, a, b) { fails.push((format!("s={:?},span={}..{}", s, a, b), e)); }
+        } }
+        for p in 0..=s.len() {
+            cases += 1;
+            if let Err(e) = check_pos(&s, p) { fails.push((format!("s={:?},pos={}", s, p), e)); }
+        }
+    }
+    report("nb_fmt_lines", cases, fails, &format!("all strings<={} chars over {{LF,a}} x all spans and positions (up to {} lines: five-line and elided renderings anywhere in the input)", l, l + 1));
+}
 /// failures are grouped into classes (the reason with digits / quoted text abstracted); the key lists one
 /// minimal witness per class so that a *new* class of failure changes the key
 fn report(name: &str, cases: u64, fails: Vec<(String, String)>, what: &str) {
